@@ -343,6 +343,14 @@ Proof.
   eapply (Led_same_tbl own own o o' evs); eauto. eapply ledger_writes; eauto.
 Qed.
 
+(* Led does not look at the file system, the counters or the scripts *)
+Lemma Led_ext : forall own o o',
+  Led own o -> tbl o' = tbl o -> keep o' = keep o -> envs o' = envs o -> trace o' = trace o -> Led own o'.
+Proof.
+  intros own o o' L Ht Hk He Htr.
+  eapply (Led_same_tbl own own o o' []); eauto. now rewrite app_nil_r.
+Qed.
+
 (* -- file_create -- *)
 Lemma Led_file_create : forall own o p o' ok fid,
   Led own o -> file_create o p = (o', ok, fid) ->
@@ -355,19 +363,36 @@ Proof.
   - pose proof (os_open_ok _ _ _ _ E) as (_ & Ht1 & _ & _ & _ & Hf1 & _).
     destruct (Led_open_ok _ _ _ _ _ L E) as (L1 & Hnot & Hfresh & Hlk).
     assert (Lok : forall b, Led (fd :: own) (log o1 (ELock fd b))).
-    { intros b. eapply Led_same_tbl with (o := o1) (evs := [ELock fd b]); eauto. simpl.
+    { intros b. eapply (Led_same_tbl (fd :: own) (fd :: own) o1 _ [ELock fd b]); eauto. simpl.
       now rewrite Nat.eqb_refl. }
-    destruct (cscr o (nopen o)); inversion H; subst.
-    + exists fd. repeat split; auto.
+    assert (Good : Led (fd :: own) (set_fs (log o1 (ELock fd true)) (upd (fs (log o1 (ELock fd true))) p (Some [])))).
+    { eapply Led_ext; [apply (Lok true)| | | |]; reflexivity. }
+    destruct (cscr o (nopen o)); cbv zeta in H; inversion H; subst.
     + exists fd. repeat split; auto.
     + split.
       * pose proof (Led_close _ _ fd (Lok false) (or_introl eq_refl)) as Lc.
         simpl in Lc. rewrite Nat.eqb_refl in Lc. simpl in Lc.
         rewrite filter_neq_notin in Lc by auto.
-        destruct Lc. constructor; auto.
+        eapply Led_ext; [exact Lc| | | |]; reflexivity.
       * simpl. destruct (os_close_frame (log o1 (ELock fd false)) (Some fd)) as (_ & Hn & _). rewrite Hn. simpl. lia.
-  - inversion H; subst. split. eapply Led_open_fail in E; eauto. destruct E; constructor; auto.
-    apply os_open_fail in E. destruct E as (_ & _ & _ & _ & Hf & _). simpl. lia.
+    + exists fd. repeat split; auto.
+  - inversion H; subst. split.
+    + eapply Led_open_fail in E; eauto. eapply Led_ext; [exact E| | | |]; reflexivity.
+    + apply os_open_fail in E. destruct E as (_ & _ & _ & _ & Hf & _). simpl. lia.
+Qed.
+
+(* what file_create does to the files: the created file is empty afterwards, nothing else changes *)
+Lemma file_create_fs : forall o p o' fid, file_create o p = (o', true, fid) ->
+  fs o' p = Some [] /\ forall q, q <> p -> fs o' q = fs o q.
+Proof.
+  intros o p o' fid H. unfold file_create in H.
+  destruct (os_open o p) as [o1 [fd|]] eqn:E; [|inversion H].
+  pose proof (os_open_ok _ _ _ _ E) as (_ & _ & Hfs & _).
+  destruct (cscr o (nopen o)); cbv zeta in H; inversion H; subst; simpl.
+  - split. apply upd_same. intros q Hq. rewrite upd_other by auto. rewrite Hfs.
+    destruct (fs o p); auto. now rewrite upd_other.
+  - split. apply upd_same. intros q Hq. rewrite upd_other by auto. rewrite Hfs.
+    destruct (fs o p); auto. now rewrite upd_other.
 Qed.
 
 (* -- file_is_writable -- *)
@@ -383,10 +408,26 @@ Proof.
     pose proof (Led_close _ _ fd L1 (or_introl eq_refl)) as Lc.
     simpl in Lc. rewrite Nat.eqb_refl in Lc. simpl in Lc. rewrite filter_neq_notin in Lc by auto.
     inversion H; subst. split.
-    + destruct Lc. constructor; auto.
+    + eapply Led_ext; [exact Lc| | | |]; reflexivity.
     + simpl. destruct (os_close_frame o1 (Some fd)) as (_ & Hn & _). congruence.
-  - inversion H; subst. split. eapply Led_open_fail in E; eauto. destruct E; constructor; auto.
-    apply os_open_fail in E. destruct E as (_ & _ & _ & _ & Hf & _). simpl. lia.
+  - inversion H; subst. split.
+    + eapply Led_open_fail in E; eauto. eapply Led_ext; [exact E| | | |]; reflexivity.
+    + apply os_open_fail in E. destruct E as (_ & _ & _ & _ & Hf & _). simpl. lia.
+Qed.
+
+(* what a successful writability probe does to the files: nothing, except that a file that did not exist still
+   does not exist *)
+Lemma file_is_writable_fs : forall o p o' ok, file_is_writable o p = (o', ok) -> forall q, fs o' q = fs o q.
+Proof.
+  intros o p o' ok H q. unfold file_is_writable in H.
+  destruct (fs o p) eqn:F. { now inversion H; subst. }
+  destruct (os_open o p) as [o1 [fd|]] eqn:E.
+  - pose proof (os_open_ok _ _ _ _ E) as (_ & _ & Hfs & _). rewrite F in Hfs.
+    inversion H; subst. simpl. destruct (os_close_frame o1 (Some fd)) as (Hc & _). rewrite Hc, Hfs.
+    destruct (String.eqb q p) eqn:Q.
+    + apply String.eqb_eq in Q. subst. now rewrite upd_same.
+    + apply String.eqb_neq in Q. now rewrite !upd_other by auto.
+  - apply os_open_fail in E. destruct E as (_ & Hfs & _). inversion H; subst. simpl. now rewrite Hfs.
 Qed.
 
 (* -- the environment -- *)
@@ -410,4 +451,74 @@ Proof.
   - intros n Hn. unfold env_entry. simpl. destruct (fd =? n) eqn:E. eauto.
     apply led_others0. rewrite app_assoc in Hn. apply in_app_or in Hn. destruct Hn as [?|[?|[]]]; auto.
     apply Nat.eqb_neq in E. congruence.
+Qed.
+
+Lemma NoDup_app_filter : forall (a b : list nat) fd,
+  NoDup (a ++ b) -> NoDup (a ++ filter (fun n => negb (n =? fd)) b).
+Proof.
+  induction a as [|x a IH]; simpl; intros b fd H.
+  - now apply NoDup_filter.
+  - inversion H; subst. constructor; auto.
+    rewrite in_app_iff in *. rewrite filter_neq_In. tauto.
+Qed.
+
+(* the environment closes one of ITS descriptors (never one of [keep], never one of the device's) *)
+Lemma Led_env_close : forall own o k, Led own o -> Led own (env_close o k).
+Proof.
+  intros own o k L. unfold env_close.
+  destruct (nth_error (envs o) k) as [fd|] eqn:E; auto.
+  apply nth_error_In in E.
+  assert (Henv : env_entry o fd) by (apply (led_others _ _ L); rewrite in_app_iff; auto).
+  assert (Hnown : ~ In fd own).
+  { intros Hin. apply (led_own _ _ L) in Hin. eapply entry_excl; eauto. }
+  assert (Hnkeep : ~ In fd (keep o)).
+  { intros Hin. pose proof (led_others_nodup _ _ L) as Hnd.
+    apply in_split in Hin. destruct Hin as (k1 & k2 & Hk). rewrite Hk in Hnd.
+    rewrite <- app_assoc in Hnd. simpl in Hnd. apply NoDup_remove_2 in Hnd.
+    apply Hnd. rewrite !in_app_iff. auto. }
+  destruct L. constructor; simpl.
+  - unfold fds_of. simpl. rewrite fds_remove. now apply NoDup_filter.
+  - auto.
+  - rewrite ledger_app, led_ledger0. reflexivity.
+  - intros n. unfold dev_entry. simpl. destruct (Nat.eq_dec n fd) as [->|N].
+    + rewrite lookup_remove_same. split; [tauto|]. intros [q Hq]. discriminate.
+    + rewrite lookup_remove_other by auto. apply led_own0.
+  - now apply NoDup_app_filter.
+  - intros n Hn. unfold env_entry. simpl.
+    assert (Hn' : In n (keep o ++ envs o) /\ n <> fd).
+    { rewrite in_app_iff in *. destruct Hn as [Hn|Hn].
+      - split; auto. intros ->. auto.
+      - apply filter_neq_In in Hn. tauto. }
+    destruct Hn' as [Hn1 Hn2]. rewrite lookup_remove_other by auto. now apply led_others0.
+Qed.
+
+(* ------------------------------------------------------------------ file_write on any descriptor argument *)
+(* whatever the descriptor argument is (owned, stale, -1): the table, the bookkeeping lists and, when the call
+   succeeds, the failure counter are untouched; a failing call counts one failure *)
+Definition wr_frame (o0 o : os) : Prop :=
+  tbl o = tbl o0 /\ keep o = keep o0 /\ envs o = envs o0 /\ nfail o = nfail o0 /\ cscr o = cscr o0 /\ wscr o = wscr o0 /\
+  nopen o = nopen o0.
+
+Lemma os_pwrite_wr_frame : forall o0 fid o off buf o' r,
+  wr_frame o0 o -> os_pwrite fid o off buf = (o', r) -> wr_frame o0 o'.
+Proof.
+  intros o0 fid o off buf o' r (Ht & Hk & He & Hf & Hc & Hw & Hn) H. unfold os_pwrite in H.
+  destruct (match fid with None => None | Some n => lookup n (tbl o) end) as [e|].
+  - destruct (deliver (wscr o (nwrite o)) (length buf)) as [w|].
+    + inversion H; subst. destruct (fs o (fe_path e)); unfold wr_frame; simpl; repeat split; auto.
+    + inversion H; subst. unfold wr_frame; simpl; repeat split; auto.
+  - inversion H; subst. unfold wr_frame; simpl; repeat split; auto.
+Qed.
+
+Lemma file_write_frame : forall o fid off buf o' ok, file_write o fid off buf = (o', ok) ->
+  tbl o' = tbl o /\ keep o' = keep o /\ envs o' = envs o /\ cscr o' = cscr o /\ wscr o' = wscr o /\ nopen o' = nopen o /\
+  nfail o' = (if ok then nfail o else S (nfail o)).
+Proof.
+  intros o fid off buf o' ok H. unfold file_write in H.
+  destruct (file_write_gen os (os_pwrite fid) o off buf) as [o1 b] eqn:E.
+  apply (file_write_gen_inv os (os_pwrite fid) (wr_frame o)) in E.
+  - destruct E as (Ht & Hk & He & Hf & Hc & Hw & Hn).
+    destruct b; inversion H; subst; simpl; repeat split; auto.
+  - intros; eapply os_pwrite_wr_frame; eauto.
+  - unfold wr_frame; repeat split; auto.
 Qed.
